@@ -246,6 +246,7 @@ where
 {
     let nthreads = std::thread::available_parallelism().map(|n| n.get()).unwrap_or(4).min(SHARDS);
     let next = AtomicUsize::new(0);
+    let crumbs: Option<PathBuf> = std::env::var("BPCHECK_CRUMBS").ok().map(PathBuf::from);
     let merged = Mutex::new((Stats::default(), Vec::<Violation>::new(), Vec::<String>::new()));
     let stop = AtomicBool::new(false);
     std::thread::scope(|sc| {
@@ -267,6 +268,10 @@ where
                             return;
                         }
                         let r = runner.run(s, |case| {
+                            if let Some(dir) = crumbs.as_ref() {
+                                let body = json!({"property": ctx.property, "sub": sub, "reason": "process died (abort / kill) while this case was running", "case": serde_json::to_value(&case).unwrap_or(Value::Null)});
+                                let _ = std::fs::write(dir.join(format!("shard-{}.json", shard)), body.to_string());
+                            }
                             let mut log = CaseLog::default();
                             let res = match catch_unwind(AssertUnwindSafe(|| oracle(&case, &mut log))) {
                                 Ok(r) => r,
@@ -324,6 +329,9 @@ where
                     }
                     drop(run_one);
                     drop(stats_cell);
+                    if let Some(dir) = crumbs.as_ref() {
+                        let _ = std::fs::remove_file(dir.join(format!("shard-{}.json", shard)));
+                    }
                     let mut g = merged.lock().unwrap();
                     g.0.merge(stats);
                     g.1.extend(viol);
